@@ -1759,6 +1759,16 @@ mod crypto {
     }
 
     const CRYPTO_BUFSIZE: usize = 100_000;
+    #[cfg(not(savefile_verif))]
+    #[inline(always)]
+    fn crypto_bufsize() -> usize {
+        CRYPTO_BUFSIZE
+    }
+    #[cfg(savefile_verif)]
+    #[inline(always)]
+    fn crypto_bufsize() -> usize {
+        crate::verif_hooks::crypto_bufsize().unwrap_or(CRYPTO_BUFSIZE)
+    }
 
     impl Drop for CryptoWriter<'_> {
         fn drop(&mut self) {
@@ -1839,7 +1849,7 @@ mod crypto {
                 use byteorder::ByteOrder;
                 let curlen = byteorder::LittleEndian::read_u64(&sizebuf) as usize;
 
-                if curlen > CRYPTO_BUFSIZE + 16 {
+                if curlen > crypto_bufsize() + 16 {
                     return Err(Error::new(ErrorKind::Other, "Cryptography error"));
                 }
                 let orglen = self.buf.len();
@@ -1867,7 +1877,7 @@ mod crypto {
                 panic!("Call to failed CryptoWriter");
             }
             self.buf.extend(buf);
-            if self.buf.len() > CRYPTO_BUFSIZE {
+            if self.buf.len() > crypto_bufsize() {
                 self.flush()?;
             }
             Ok(buf.len())
@@ -1881,22 +1891,22 @@ mod crypto {
             let mut offset = 0;
 
             let mut tempbuf = Vec::new();
-            if self.buf.len() > CRYPTO_BUFSIZE {
-                tempbuf = Vec::<u8>::with_capacity(CRYPTO_BUFSIZE + 16);
+            if self.buf.len() > crypto_bufsize() {
+                tempbuf = Vec::<u8>::with_capacity(crypto_bufsize() + 16);
             }
 
             while self.buf.len() > offset {
                 let curbuf;
-                if offset == 0 && self.buf.len() <= CRYPTO_BUFSIZE {
+                if offset == 0 && self.buf.len() <= crypto_bufsize() {
                     curbuf = &mut self.buf;
                 } else {
-                    let chunksize = (self.buf.len() - offset).min(CRYPTO_BUFSIZE);
+                    let chunksize = (self.buf.len() - offset).min(crypto_bufsize());
                     tempbuf.resize(chunksize, 0u8);
                     tempbuf.clone_from_slice(&self.buf[offset..offset + chunksize]);
                     curbuf = &mut tempbuf;
                 }
                 let expected_final_len = curbuf.len() as u64 + 16;
-                debug_assert!(expected_final_len <= CRYPTO_BUFSIZE as u64 + 16);
+                debug_assert!(expected_final_len <= crypto_bufsize() as u64 + 16);
 
                 self.writer.write_u64::<LittleEndian>(expected_final_len)?; //16 for the tag
                 match self.sealkey.seal_in_place_append_tag(aead::Aad::empty(), curbuf) {
